@@ -416,6 +416,9 @@ pub struct IrqOpts {
     /// 0xF9 and set again a few instructions later (a press latched before the clearing store takes
     /// effect must still be served; a press inside the window must not)
     pub mask_windows: bool,
+    /// a STOP in the middle of the main body; the driver presses CONTINUE after some halted edges
+    /// (a press made while the machine is halted must be served after the continue)
+    pub mid_stop: bool,
 }
 
 pub const IRQ_COUNTER: u8 = 0xCF;
@@ -424,7 +427,17 @@ pub const IRQ_SCRATCH: u8 = 0xCE;
 /// Instruction sequence from the full emittable set with a bias toward hazards (DESIGN.md C01 A).
 /// Returns the image and the stack pointer it installs.
 pub fn hazard_program(rng: &mut Rng, o: HazardOpts) -> Vec<u8> {
+    hazard_program_ex(rng, o).0
+}
+
+/// as `hazard_program`; the flag tells whether the mid-body STOP (IrqOpts::mid_stop) was emitted
+pub fn hazard_program_ex(rng: &mut Rng, o: HazardOpts) -> (Vec<u8>, bool) {
     let mut p = Prog::new();
+    let mid_stop_at = match o.irq {
+        Some(i) if i.mid_stop => Some(1 + rng.usize(o.len.max(2) - 1)),
+        _ => None,
+    };
+    let mut mid_stop_emitted = false;
     // subroutine table is placed after the main body; CALLs are patched afterwards
     let mut call_sites: Vec<usize> = vec![];
     let mut depth: i32 = 0;
@@ -457,6 +470,10 @@ pub fn hazard_program(rng: &mut Rng, o: HazardOpts) -> Vec<u8> {
     let mut n = 0;
     while n < o.len && p.len() < body_limit {
         n += 1;
+        if Some(n) == mid_stop_at {
+            p.stop();
+            mid_stop_emitted = true;
+        }
         let choice = if last_flag_producer && rng.chance(1, 2) { 100 + rng.below(5) } else { rng.below(40) };
         last_flag_producer = false;
         match choice {
@@ -586,6 +603,9 @@ pub fn hazard_program(rng: &mut Rng, o: HazardOpts) -> Vec<u8> {
                 if o.wild && o.irq.is_none() {
                     p.ldsp(Src::Imm(0xE0 + rng.below(16) as u8));
                     depth = 0;
+                } else if o.irq.map(|i| i.mask_windows).unwrap_or(false) && rng.chance(1, 3) {
+                    // the enable mask rewritten with bit 0 still set (a latched press must survive it)
+                    p.mov(Dst::Abs(0xF9), Src::Imm(1 | (rng.u8() & 0x3E)));
                 } else if o.irq.map(|i| i.mask_windows).unwrap_or(false) {
                     // mask window: MOV (0xF9),#v with bit 0 clear ... MOV (0xF9),#w with bit 0 set
                     let v0 = if rng.bool() { 0 } else { rng.u8() & 0x3E };
@@ -749,7 +769,7 @@ pub fn hazard_program(rng: &mut Rng, o: HazardOpts) -> Vec<u8> {
             p.un(*rng.pick(&[0x44u8, 0x50, 0x30, 0x38, 0x48]), rng.below(3) as u8);
         }
     }
-    p.b
+    (p.b, mid_stop_emitted)
 }
 
 pub fn hazard_setup(rng: &mut Rng, wild_p: u64) -> Setup {
